@@ -165,13 +165,13 @@ fn eval<L: ArrayLength<u8>>(
         KsfSpec::Identity => opaque_ke::ksf::Identity.hash(input),
         KsfSpec::Argon2 { m_kib, t, p } => {
             let params = argon2::Params::new(*m_kib, *t, *p, None)
-                .expect("harness: generated Argon2 parameters must be valid");
+                .expect("HARNESS-BUG: generated Argon2 parameters must be valid");
             let a = argon2::Argon2::new(argon2::Algorithm::Argon2id, argon2::Version::V0x13, params);
             a.hash(input)
         }
         KsfSpec::Argon2Default => argon2::Argon2::default().hash(input),
         KsfSpec::Argon2Ex { .. } | KsfSpec::Argon2Out { .. } => argon2_instance(spec)
-            .expect("harness: generated Argon2 parameters must be valid")
+            .expect("HARNESS-BUG: generated Argon2 parameters must be valid")
             .hash(input),
         KsfSpec::H(i) => {
             let mut out = GenericArray::<u8, L>::default();
